@@ -25,6 +25,8 @@ for pid in sorted(os.listdir(S)):
             verdict = "MISSED"
         else:
             verdict = "not run"
+        if meta.get("superseded"):
+            verdict = "superseded (no-op on HEAD): " + verdict
         others = [c for c in res.get("caught_with_failing_input", []) if c != pid]
         ex = own.get("first_failing_case", {})
         example = (ex.get("expected") or ex.get("impl") or "")
@@ -44,6 +46,8 @@ with open(os.path.join(S, "RESULTS.md"), "w") as f:
     caught = sum(1 for r in rows if r[4].startswith("caught, failing"))
     pin = sum(1 for r in rows if r[4].startswith("caught, source"))
     missed = sum(1 for r in rows if r[4] == "MISSED")
+    sup = sum(1 for r in rows if r[4].startswith("superseded"))
     f.write(f"\n{n} changes: {caught} caught with a failing input, {pin} caught through a moved source pin / broken correspondence only "
-            f"(`no-failing-input-found`), {missed} missed by the property's own check.\n")
+            f"(`no-failing-input-found`), {missed} missed by the property's own check, {sup} superseded by a later repair in /repo "
+            f"(the patch still applies but no longer changes behaviour).\n")
 print(f"{len(rows)} rows")
